@@ -95,7 +95,8 @@ class C06(Check):
                  'second_client': rng.random() < 0.4, 'probe_seed': rng.randrange(1 << 30),
                  'nprobe': rng.randrange(8, 40 if tier == 'thorough' else 25)}
         if mode == 'generated':
-            specs = [genmod.gen_module_spec(rng, f'm{i}', depth=rng.choice([1, 2, 2]), full=True, constants='all')
+            specs = [genmod.gen_module_spec(rng, f'm{i}', depth=rng.choice([1, 2, 2]), full=True, constants='all',
+                                            constants_read=True)
                      for i in range(rng.choice([1, 2, 3]))]
             for s in specs:
                 s['enablePoll'] = rng.random() < 0.6
